@@ -18,7 +18,7 @@ from lib.common import MachineryError, classify_mismatches, log
 PKG_HS = "./p2p/http/auth/internal/handshake"
 PKG_AUTH = "./p2p/http/auth"
 
-INV = "INVARIANTS TypeOK TokensProven ClientReports KindsSeparate CacheProven"
+INV = "INVARIANTS TypeOK TokensProven ClientReports KindsSeparate CacheProven TokensDated"
 PROPS = "PROPERTIES ServerReports BearerReports Integrity ClientOpReports TokReports"
 STATE_PROPS = ("ReachClientDoneS", "ReachTokReport")
 
@@ -31,11 +31,11 @@ tlc._unescape = _fast_unescape
 
 
 def inst(name, maxt, mint, tok, cli, explicit, verifiers="MCVerifiersS", samekey=True, rich=False,
-         places="MCPlaces3", chalttl=1, tokttl=1, alias=False, seq=False, stale=True, careless=False):
+         places="MCPlaces3", chalttl=1, tokttl=1, alias=False, seq=False, stale=True, careless=False, mixed=True):
     t = lambda b: "TRUE" if b else "FALSE"
     return name, {"MaxT": maxt, "ChalTTL": chalttl, "TokTTL": tokttl, "MaxMint": mint, "MaxTok": tok, "MaxCli": cli,
                   "S2SameKey": t(samekey), "Explicit": t(explicit), "Rich": t(rich), "SeqSessions": t(seq),
-                  "StaleStart": t(stale), "Careless": t(careless)}, [
+                  "StaleStart": t(stale), "Careless": t(careless), "Mixed": t(mixed)}, [
         ("Verifiers <- MCVerifiersS", "Verifiers <- " + verifiers),
         ("MintPlaces <- MCPlaces3", "MintPlaces <- " + places),
         ("AliasHosts <- MCNoAlias", "AliasHosts <- " + ("MCAlias" if alias else "MCNoAlias")),
@@ -82,7 +82,7 @@ def edge_instances(ctx):
     out = [
         inst("srv-r", 2, 2, 1, 0, False),
         inst("cli-r", 0, 1, 2, 1, True, verifiers="MCVerifiersNone", samekey=False),
-        inst("mix-r", 0, 1, 1, 1, True, places="MCPlacesS"),
+        inst("mix-r", 0, 1, 1, 1, True, places="MCPlacesS", mixed=False),
         # lifetimes: TokenTTL <, =, > challenge lifetime (in ticks); the clock crosses every boundary
         time_inst("time12-r", 1, 2, 4), time_inst("time21-r", 2, 1, 4), time_inst("time13-r", 1, 3, 5),
         # the client's token cache and the alias hostname
@@ -94,7 +94,7 @@ def edge_instances(ctx):
             inst("srvttl-t", 3, 2, 1, 0, False, chalttl=1, tokttl=2, places="MCPlacesS"),
             inst("srvboth-t", 2, 2, 1, 0, False, verifiers="MCVerifiersBoth", samekey=False, places="MCPlaces4"),
             inst("cli-t", 0, 1, 2, 1, True, verifiers="MCVerifiersNone", samekey=False, rich=True),
-            inst("mix-t", 1, 1, 1, 1, True, places="MCPlacesS", samekey=False),
+            inst("mix-t", 1, 1, 1, 1, True, places="MCPlacesS", samekey=False, mixed=False),
             time_inst("time31-t", 3, 1, 5), time_inst("time22-t", 2, 2, 5),
             host_inst("host1-t", 1, places="MCPlaces1"),
             host_inst("host-t", 1),
@@ -126,6 +126,8 @@ def _reach(args):
 # edge kinds that must occur in the printed graphs (vacuity of the replay)
 def edge_kind(op):
     n = op.get("name")
+    if n in ("verify", "bearer") and op.get("mix", "none") != "none":
+        return "%s+%s/%s" % (n, op["mix"], op["res"])
     if n in ("verify", "bearer"):
         if op.get("alt") != "none":
             return "%s/alt:%s" % (n, op["alt"])
@@ -145,6 +147,8 @@ REQUIRED_KINDS = ["challenge", "sign", "tick", "cstart", "cstart/tok", "ctok/200
                   "verify/ok/kC", "verify/ok/kA", "verify/hmac", "verify/expired", "verify/kind", "verify/host",
                   "verify/nokey", "verify/sig", "verify/nochs",
                   "bearer/ok/kC", "bearer/ok/kA", "bearer/hmac", "bearer/kind", "bearer/expired",
+                  "bearer+cs+pk/ok", "bearer+cs+pk/expired", "bearer+cs+pk/kind", "bearer+o+cs+pk/expired", "bearer+sig+cs+pk/expired",
+                  "verify+bearer/ok", "verify+bearer/expired", "verify+bearer/kind",
                   "cwww/signed", "cwww/verified/kS", "cwww/verified/kA", "cwww/err", "cinfo/done/kS", "cinfo/done/kA", "cinfo/err"] + \
                  ["verify/alt:" + a for a in ("o.mac", "o.tok", "o.cpk", "o.pid", "o.ch", "o.host", "o.t", "o.trunc", "o.ext",
                                               "sig", "sig.trunc", "sig.ext", "pk")] + \
@@ -244,7 +248,7 @@ def run(ctx):
     def handler(_):
         return goenv.run_harness(sub_ctx("handler"), PKG_AUTH, "^TestVerifC19Handler$", inputs=beh_small,
                                  env={"VERIF_C19_KEYS": "ed25519" if ctx.tier != "thorough" else "mixed",
-                                      "VERIF_C19_MAXWALKS": "0" if ctx.tier == "thorough" else "6000"}, timeout=1500)
+                                      "VERIF_C19_MAXWALKS": "0" if ctx.tier == "thorough" else "4000"}, timeout=1500)
 
     with cf.ThreadPoolExecutor(max_workers=6) as ex:
         futs = [(p, ex.submit(hs, p)) for p in profiles]
